@@ -468,8 +468,8 @@ c.param("tag", KEnum((None,) + TAG_VALUES))
 c.param("maybe_date", KOpt(KInt()))
 c.returns(KOpt(KStr()))
 c.effects = _incr_effects
-c.ensures("C01.incr_dispatch.none_or_nonempty_and_changed", lambda a, res, cx: b_or(v_is_none(res), b_and(v_ne(V.unwrap_opt(res), ""), v_ne(V.unwrap_opt(res), a.old_version))))
-c.ensures("C01+C13.incr_dispatch.computes_only", lambda a, res, cx: all(e[0] in ("Log", "CallResult") for e in cx.new), internal=True)
+c.ensures("C01.incr_dispatch.none_or_changed", lambda a, res, cx: b_or(v_is_none(res), v_ne(V.unwrap_opt(res), a.old_version)))
+c.ensures("C01+C13.incr_dispatch.computes_only", lambda a, res, cx: all(e[0] in ("Log", "CallResult", "IncrEngine") for e in cx.new), internal=True)
 c.exsures(OverflowError)
 c.exsures(ValueError)
 c.exsures(_re.error)
@@ -518,7 +518,7 @@ c.exsures(SystemExit, "C13._print_diff.failure_exits_1", lambda a, exc, cx: v_eq
 c.exsures(version.PatternError)
 c.exsures(_re.error)
 c.exsures(ValueError)
-c.trusted_body = True
+c.trusted = "callers' view; the diff path itself is C13 (contracts/diff.py)"
 
 
 # --------------------------------------------------------------------------- _update: dirty check, rewrite, commit (C10, C11, C06)
@@ -790,3 +790,95 @@ def _update_contract():
 
 
 _update_contract()
+
+
+def _test_return(a, res, cx):
+    """`bumpver test` exits 0: the announced version passed the gate against old_version/pattern."""
+    gates = _ev(cx, "Gate")
+    outs = [e for e in cx.new if e[0] == "Out"]
+    raw = [e for e in cx.new if e[0] in ("Write", "Vcs", "VcsStep", "Hook", "Popen", "Exec", "RewritePhase", "CommitPhase", "UpdatePhase", "ConfigInit")]
+    if raw or len(gates) != 1 or gates[0][5] != "return" or not outs:
+        return False
+    g = gates[0]
+    passed = v_truthy([e for e in cx.new if e[0] == "CallResult" and e[1] == "bumpver.cli._is_valid_version"][-1][2])
+    announced = outs[0][1][0]
+    cs = [passed, v_eq(g[1], a.pattern), v_eq(g[2], a.old_version), v_eq(announced, v_arith("+", "New Version: ", g[3]))]
+    cs.append(b_implies(b_not(v_is_none(a.set_version)), v_eq(g[3], V.unwrap_opt(a.set_version))))
+    return b_and(*cs)
+
+
+def _test_raise(a, exc, cx):
+    raw = [e for e in cx.new if e[0] in ("Write", "Vcs", "VcsStep", "Hook", "Popen", "Exec", "RewritePhase", "CommitPhase", "UpdatePhase")]
+    if raw:
+        return False
+    if any(e[0] == "Out" for e in cx.new):
+        return False  # nothing is announced on a failing run
+    if issubclass(exc.cls, SystemExit):
+        return v_ne(exc.args[0], 0)
+    return True
+
+
+c = REG.new("bumpver.cli.test")
+c.param("old_version", KStr())
+c.param("pattern", KStr())
+c.param("verbose", KInt(ge=0))
+for _p in ("major", "minor", "patch", "tag_num", "pin_increments", "pin_date"):
+    c.param(_p, KBool())
+c.param("tag", KOpt(KStr()))
+c.param("date", KOpt(KStr()))
+c.param("set_version", KOpt(KStr()))
+c.ensures("C01.test.exit_0_only_through_gate_announces_that_version", _test_return, internal=True)
+for _E in (SystemExit, sp.CalledProcessError, OSError, version.PatternError, _re.error, ValueError, KeyError, IndexError, OverflowError, NotImplementedError):
+    c.exsures(_E, f"C01.test.failure_{_E.__name__}_nonzero_exit_no_announcement_no_write", _test_raise, internal=True)
+
+
+# --------------------------------------------------------------------------- incr_dispatch body: engine choice (C20) and pass-through (C01)
+from bumpver import v1patterns  # noqa: E402
+
+DOCUMENTED_V1_PARTS = ("pycalver", "semver", "year", "month", "dom", "doy", "quarter", "build_no", "release", "MAJOR", "MINOR", "PATCH", "pep440_pycalver", "pep440_version", "build", "yy", "yyyy", "iso_week", "us_week", "release_tag", "bid", "BID", "tag", "pep440_tag")
+
+
+def _engine_effects(name):
+    def eff(a, st, outcome):
+        st.emit("IncrEngine", name, a.old_version, a.raw_pattern, outcome)
+
+    return eff
+
+
+REG["bumpver.v2version.incr"].effects = _engine_effects("v2")
+
+c = REG.new("bumpver.v1version.incr")
+c.param("old_version", KStr())
+c.param("raw_pattern", KStr())
+c.returns(KOpt(KStr()))
+c.effects = _engine_effects("v1")
+c.ensures("C20+C01.v1.incr.none_or_changed", lambda a, res, cx: b_or(v_is_none(res), v_ne(V.unwrap_opt(res), a.old_version)))
+c.exsures(OverflowError)
+c.exsures(NotImplementedError)
+c.exsures(ValueError)
+c.exsures(KeyError)
+c.exsures(IndexError)
+c.exsures(_re.error)
+c.trusted = "callers' view of the legacy bump (C20)"
+
+
+def _dispatch_clause(a, res, cx):
+    eng = [e for e in cx.new if e[0] == "IncrEngine"]
+    if len(eng) != 1:
+        return False
+    e = eng[0]
+    used_v1 = e[1] == "v1"
+    has_brace = b_or(v_contains("{", a.raw_pattern), v_contains("}", a.raw_pattern))
+    has_doc_part = b_or(*[v_contains("{" + p + "}", a.raw_pattern) for p in DOCUMENTED_V1_PARTS])
+    cs = [v_eq(e[2], a.old_version), v_eq(e[3], a.raw_pattern)]
+    # the legacy engine is used for every pattern with a documented legacy part, and only for patterns
+    # that the gate (_is_valid_version) and the config loader also treat as legacy (a brace occurs)
+    cs.append(b_implies(has_doc_part, used_v1))
+    cs.append(b_implies(used_v1, has_brace))
+    return b_and(*cs)
+
+
+c = REG["bumpver.cli.incr_dispatch"]
+c.ensures("C20.incr_dispatch.engine_choice_agrees_with_gate_and_config_loader", _dispatch_clause, internal=True)
+for _cls in list(c.exsures_):
+    c.exsures(_cls, f"C20.incr_dispatch.engine_choice_on_failure_{_cls.__name__}", _dispatch_clause, internal=True)
